@@ -365,7 +365,7 @@ def ev_sub(c) -> R:
     r = R()
     base = fresh_dir("c03")
     up = base / "upstream"
-    materialise(up, {"lib.c": "int lib;\n", "README": "readme\n"})
+    materialise(up, {"lib.c": "int lib;\n", "README": "readme\n", ".gitignore": "*.o\nout/\n"})
     gitrepo.init(up, add=True, commit=True)
     root = base / "proj"
     materialise(root, {"main.py": "print(1)\n", "src/app.py": "x = 1\n", "subprojects/wrap.wrap": "[wrap]\n", "subprojects/p/meson.c": "int m;\n",
@@ -374,8 +374,16 @@ def ev_sub(c) -> R:
     gitrepo.git(root, "submodule", "add", "-q", str(up), "vendor/libsub")
     gitrepo.git(root, "submodule", "add", "-q", str(up), "subprojects/subsub")
     gitrepo.git(root, "add", "-A")
+    # build products inside the checked-out submodules, ignored by the submodule's own .gitignore
+    sub_ignored = set()
+    for sm in ("vendor/libsub", "subprojects/subsub"):
+        materialise(root / sm, {"lib.o": "object\n", "out/gen.c": "int gen;\n"})
+        for rel in ("lib.o", "out/gen.c"):
+            if gitrepo.git(root / sm, "check-ignore", "-q", "--", rel, check=False).returncode != 0:
+                raise HarnessError(f"{sm}/{rel} is not ignored inside the submodule")
+            sub_ignored.add(f"{sm}/{rel}")
     opts = {"meson": c["meson"], "submodules": c["submodules"], "submodule_dirs": {("vendor", "libsub"), ("subprojects", "subsub")}}
-    cov, unspec, _ = reference_sets(root, opts)
+    cov, unspec, _ = reference_sets(root, opts, ignored=sub_ignored)
     cov = {p for p in cov if not p.startswith(".git/")}
     extra = (["--include-submodules"] if c["submodules"] else []) + (["--include-meson-subprojects"] if c["meson"] else [])
     cwd = {"root": str(root), "subdir": str(root / "src"), "outside": str(base)}[c["cwd"]]
